@@ -14,7 +14,8 @@ EXPLANATION = (
     "the TypeId equality dominates from_raw_parts; in bench the None arm diverges; the argument handed to the user "
     "function is typed_args[arg_index]. The macro side (one __DIVAN_ARGS per function, own type/const per "
     "instantiation) is R12.2/R12.3 (C12)."
-    " R17.5 macro side (engine E3, on the expansions of the corpus and of the repository's own programs): one shared argument cell (a static of type BenchArgs) per attributed function, every runner closure of every generic instantiation goes through that one cell, each GenericBenchEntry instantiates the function with the type / constant it is labelled with, and the args expression is the one written.")
+    " R17.5 macro side (engine E3, on the expansions of the corpus and of the repository's own programs): one shared argument cell (a static of type BenchArgs) per attributed function, every runner closure of every generic instantiation goes through that one cell, each GenericBenchEntry instantiates the function with the type / constant it is labelled with, and the args expression is the one written."
+    " R17.6 EntryConst::name caches in its own cell, no statics shared between consts.")
 NOT_DECIDED = ["ToString/Debug output equality for user types", "programs outside the analysed macro corpus (C12)"]
 
 
